@@ -379,6 +379,33 @@ func checkC13(c *Ctx, r *Report) {
 		r.Check(okR, "V1", "nfpm.Get fails for an unregistered format", c.pos(reg.Pos()), "the not-found edge of the registry lookup (keyed by the requested format) must return a non-nil error")
 	}
 
+	// ---- entries addressed to another packager never reach the plan ----
+	if prep := c.Func("files", "PrepareForPackager"); prep != nil {
+		n := 0
+		for _, format := range specFormats {
+			for _, typ := range allTypes {
+				n++
+				ev := newEvaluator(c)
+				obj := newAObj("content")
+				obj.Fields["Type"] = cStr(typ)
+				obj.Fields["Packager"] = cStr("zz-other-packager")
+				ev.Defaults[c.contentPtrKey()] = obj
+				args := make([]AV, len(prep.Params))
+				for i, p := range prep.Params {
+					if b, ok := p.Type().Underlying().(*types.Basic); ok && b.Kind() == types.String {
+						args[i] = cStr(format)
+					}
+				}
+				got := planMarkers(c, ev.Explore(prep, args))
+				r.Check(len(got) == 0, "D1-plan", fmt.Sprintf("plan for %s excludes type %q addressed to another packager", format, typ), c.pos(prep.Pos()),
+					fmt.Sprintf("planner mechanisms live {%s}: an entry tagged for another packager must not be planned, whatever its type", joinSorted(got)))
+			}
+		}
+		r.Count("plan_cells", n)
+	}
+	// ---- Get does not write the base configuration ----
+	checkSharedSlicesIn(c, r, c.Reach(get))
+
 	// ---- A1 ----
 	checkMergeAlias(c, r, "A1")
 
